@@ -241,6 +241,63 @@ func (eng *Engine) runScans(prop string) []*Oblig {
 					}
 				}
 			}
+		case "frozen-after-publish":
+			// in the named functions: a map whose address is handed to atomic.StorePointer is not updated afterwards
+			for _, fn := range fns {
+				if !eng.fnAllowed(fn, sc.Args) {
+					continue
+				}
+				for _, b := range fn.Blocks {
+					for idx, in := range b.Instrs {
+						call, ok := in.(*ssa.Call)
+						if !ok {
+							continue
+						}
+						f := call.Common().StaticCallee()
+						if f == nil || fullName(f) != "sync/atomic.StorePointer" || len(call.Common().Args) < 2 {
+							continue
+						}
+						covered++
+						// the published cell: &x behind a conversion to unsafe.Pointer
+						var cell ssa.Value = call.Common().Args[1]
+						for {
+							if cv, ok := cell.(*ssa.Convert); ok {
+								cell = cv.X
+								continue
+							}
+							if ct, ok := cell.(*ssa.ChangeType); ok {
+								cell = ct.X
+								continue
+							}
+							break
+						}
+						// instructions reachable after the call
+						seen := map[*ssa.BasicBlock]bool{}
+						var after []ssa.Instruction
+						after = append(after, b.Instrs[idx+1:]...)
+						work := append([]*ssa.BasicBlock{}, b.Succs...)
+						for len(work) > 0 {
+							x := work[len(work)-1]
+							work = work[:len(work)-1]
+							if seen[x] {
+								continue
+							}
+							seen[x] = true
+							after = append(after, x.Instrs...)
+							work = append(work, x.Succs...)
+						}
+						for _, a := range after {
+							mu, ok := a.(*ssa.MapUpdate)
+							if !ok {
+								continue
+							}
+							if ld, ok := mu.Map.(*ssa.UnOp); ok && ld.X == cell {
+								bad = append(bad, eng.site(a)+" updates the map after it was published by StorePointer")
+							}
+						}
+					}
+				}
+			}
 		case "header-readers":
 			// every read of a forwarding / real-client-IP request header is inside an allowed function
 			allowed := sc.Args
